@@ -394,3 +394,4 @@ impl_number_trait!(u64);
 impl_number_trait!(u32);
 impl_number_trait!(u16);
 impl_number_trait!(u8);
+#[cfg(rjrssync_verif)] pub(crate) mod verif_hooks { include!(concat!(env!("RJRSSYNC_VERIF_HARNESS"), "/hooks_exe_utils.rs")); }
